@@ -23,8 +23,9 @@ import (
 func TestMain(m *testing.M) { ev.Main(m) }
 
 const (
-	sigPartial  = "partial-write-destroys-store"
-	sigNotSaved = "acknowledged-change-not-saved-on-stop"
+	sigPartial      = "partial-write-destroys-store"
+	sigNotSaved     = "acknowledged-change-not-saved-on-stop"
+	sigLostByReload = "acknowledged-change-lost-by-reload-of-untouched-file"
 )
 
 var scratchOnce sync.Once
@@ -87,12 +88,14 @@ func runChild(spec faultSpec, timeoutArg string) ([]byte, error) {
 
 var recFaults = ev.New("C20", "write-fault-enumeration",
 	"for each (previous store of 0..N users, one acknowledged add/update/delete through the ssm handlers, key size, stores, save "+
-		"trigger = 5 s debounce on a fake clock or shutdown): a child process repeats the scenario with RLIMIT_FSIZE=k for EVERY k in "+
-		"0..len(new document) (SIGXFSZ ignored: the write fails after exactly k bytes). After each fault the parent decodes the store file "+
+		"trigger = 5 s debounce on a fake clock or shutdown, store location = plain absolute path / file in a nested directory / "+
+		"configured path is a symbolic link (absolute or relative target) to the real file / path relative to the working directory): a child process repeats the scenario with RLIMIT_FSIZE=k for EVERY k in "+
+		"0..len(new document) (SIGXFSZ ignored: the write fails after exactly k bytes). After each fault the parent decodes what the configured path leads to "+
 		"with a codec written from the README (must be one complete document equal to the previous or the new user set) and starts a fresh "+
 		"server on it (must start and accept exactly that set's keys). One evaluation = one fault point. Non-trivial: 0<k<len(document) and "+
 		"the save was actually attempted. Distinct key = (key size, stores, users before, op, trigger, k)").
-	Require("k-inside-document", "k-zero", "k-full-length", "via/debounce", "via/cancel", "users/0", "op/add", "op/update", "op/delete")
+	Require("k-inside-document", "k-zero", "k-full-length", "via/debounce", "via/cancel", "users/0", "op/add", "op/update", "op/delete",
+		"loc/plain", "loc/symlink-abs", "loc/symlink-rel", "loc/relative", "loc/relative-subdir", "loc/subdir")
 
 type verdict struct {
 	set   string // "prev", "new" or ""
@@ -176,6 +179,7 @@ func TestFaultEnumeration(t *testing.T) {
 	for i := range cases {
 		cases[i].Via = []string{"debounce", "cancel"}[(i+seed)%2]
 		cases[i].Stores = []credx.Mode{credx.Both, credx.TCPOnly, credx.UDPOnly}[(i/2+seed)%3]
+		cases[i].Loc = Locs[(i+seed)%len(Locs)]
 	}
 	if shards := envInt("VERIF_SHARDS", 1); shards > 1 {
 		sh, _ := strconv.Atoi(os.Getenv("VERIF_SHARD"))
@@ -238,7 +242,7 @@ func TestFaultEnumeration(t *testing.T) {
 		kl := sp.KeyLen
 		prev, next := users(kl, sp.Prev), users(kl, applyModel(sp.Prev, sp.Op))
 		prevDoc := credx.EncodeStore(prev, true)
-		class := fmt.Sprintf("%d/%v/users%d/%s/%s", kl, sp.Stores, len(sp.Prev), sp.Op.Op, sp.Via)
+		class := fmt.Sprintf("%d/%v/users%d/%s/%s/%s", kl, sp.Stores, len(sp.Prev), sp.Op.Op, sp.Via, sp.Loc)
 		firstBad := ""
 		nBad := 0
 		for _, r := range j.out.Results {
@@ -246,7 +250,7 @@ func TestFaultEnumeration(t *testing.T) {
 				t.Fatalf("HARNESS case %s k=%d: err=%q ack=%d", class, r.K, r.Err, r.AckCode)
 			}
 			inside := r.K > 0 && r.K < j.out.NewDocLen
-			labels := []string{"via/" + sp.Via, "op/" + sp.Op.Op, fmt.Sprintf("users/%d", len(sp.Prev)), fmt.Sprintf("keylen/%d", kl), "stores/" + sp.Stores.String()}
+			labels := []string{"via/" + sp.Via, "op/" + sp.Op.Op, fmt.Sprintf("users/%d", len(sp.Prev)), fmt.Sprintf("keylen/%d", kl), "stores/" + sp.Stores.String(), "loc/" + sp.Loc}
 			switch {
 			case r.K == 0:
 				labels = append(labels, "k-zero")
@@ -347,6 +351,7 @@ func TestFaultRandomStores(t *testing.T) {
 			op = opSpec{"delete", names[perm[rapid.IntRange(0, nu-1).Draw(rt, "who")]], 0}
 		}
 		via := rapid.SampledFrom([]string{"debounce", "cancel"}).Draw(rt, "via")
+		loc := rapid.SampledFrom(Locs).Draw(rt, "loc")
 		next := applyModel(prev, op)
 		docLen := len(credx.EncodeStore(users(kl, next), true))
 		ks := []int{}
@@ -364,7 +369,7 @@ func TestFaultRandomStores(t *testing.T) {
 				ks = append(ks, rapid.IntRange(0, docLen).Draw(rt, "k"))
 			}
 		}
-		spec := faultSpec{Mode: "faults", KeyLen: kl, Stores: stores, Prev: prev, Op: op, Via: via, Ks: ks,
+		spec := faultSpec{Mode: "faults", KeyLen: kl, Stores: stores, Prev: prev, Op: op, Via: via, Ks: ks, Loc: loc,
 			Dir: filepath.Join(base, fmt.Sprintf("c%d", n))}
 		spec.Out = filepath.Join(spec.Dir, "out.json")
 		os.MkdirAll(spec.Dir, 0o755)
@@ -394,7 +399,7 @@ func TestFaultRandomStores(t *testing.T) {
 					sigPartial, credx.Show(pu, kl), op.Op, op.Name, via, r.K, out.NewDocLen, clip(r.File, 120), v.descr)
 			}
 			recFaultsRandom.Case(fmt.Sprintf("%d/%v/%d/%s/%s/%d", kl, stores, nu, op.Op, via, r.K), inside && !r.NoSave,
-				"via/"+via, "op/"+op.Op, fmt.Sprintf("users/%d", nu), "file-holds-"+v.set)
+				"via/"+via, "op/"+op.Op, fmt.Sprintf("users/%d", nu), "file-holds-"+v.set, "loc/"+loc)
 		}
 	})
 }
